@@ -92,6 +92,7 @@ func Materialise(s *Scenario) (*Sim, error) {
 		cur := &v1.NodePool{ObjectMeta: metav1.ObjectMeta{Name: np.Name}}
 		w.EnvMutate(cur, "seed-status", func() { cur.Status = st })
 		pools[p.Name] = cur
+		deletePoolIfDeleting(w, p)
 		if len(p.Types) > 0 {
 			var sub []*cloudprovider.InstanceType
 			for _, n := range p.Types {
@@ -631,9 +632,9 @@ func (sim *Sim) CreatedEvent(idx int, nc *v1.NodeClaim) trace.M {
 	sort.Slice(reqs, func(i, j int) bool {
 		return reqs[i]["key"].(string)+reqs[i]["op"].(string) < reqs[j]["key"].(string)+reqs[j]["op"].(string)
 	})
-	return trace.M{"e": "Created", "idx": idx, "name": nc.Name, "pool": nc.Labels[v1.NodePoolLabelKey], "reqs": reqs,
+	return sim.createdExt(trace.M{"e": "Created", "idx": idx, "name": nc.Name, "pool": nc.Labels[v1.NodePoolLabelKey], "reqs": reqs,
 		"requests": milliRes(nc.Spec.Resources.Requests), "labels": shortLabels(nc.Labels), "allLabels": nc.Labels,
-		"annotations": nc.Annotations, "taints": absTaints(nc.Spec.Taints), "startup": absTaints(nc.Spec.StartupTaints)}
+		"annotations": nc.Annotations, "taints": absTaints(nc.Spec.Taints), "startup": absTaints(nc.Spec.StartupTaints)}, nc)
 }
 
 // Run: drv sched -in scenarios.ndjson -out dir -shards N  (one scenario JSON per line)
